@@ -184,15 +184,24 @@ fn run_ttc(ctx: &Ctx) {
     let s = explore_par(0, 2, |c: &mut Chooser<'_>| {
         let version = *c.of(&[0x0001_0000u32, 0x0002_0000]);
         let nm = 1 + c.pick(max_members);
-        let members: Vec<Vec<usize>> = (0..nm).map(|_| c.of(&subsets).clone()).collect();
-        let flavors: Vec<u32> = (0..nm).map(|k| FLAVORS[k % 3]).collect();
-        let layout = *c.of(&[sfnt::TtcLayout::DirsFirst, sfnt::TtcLayout::Interleaved, sfnt::TtcLayout::TablesFirst]);
-        let bytes = sfnt::build_ttc_layout(version, &flavors, &pool, &members, layout);
+        let mut members: Vec<Vec<usize>> = (0..nm).map(|_| c.of(&subsets).clone()).collect();
+        let mut flavors: Vec<u32> = (0..nm).map(|k| FLAVORS[k % 3]).collect();
+        let layout = *c.of(&[sfnt::TtcLayout::DirsFirst, sfnt::TtcLayout::Interleaved, sfnt::TtcLayout::TablesFirst, sfnt::TtcLayout::DirsReversed]);
+        let mut bytes = sfnt::build_ttc_layout(version, &flavors, &pool, &members, layout);
+        // two members may share one table directory (the header then lists the same offset twice): member 1 := member 0
+        if nm >= 2 && c.pick(2) == 1 {
+            let o0: [u8; 4] = [bytes[12], bytes[13], bytes[14], bytes[15]];
+            bytes[16..20].copy_from_slice(&o0);
+            members[1] = members[0].clone();
+            flavors[1] = flavors[0];
+        }
+        let (members, flavors, bytes) = (members, flavors, bytes);
         let what = || json!({"container": "ttc", "version": version, "layout": format!("{:?}", layout), "members": members, "file_hex": mcx::hex(&bytes)});
         let h = H::new().bytes(&bytes).get();
         let r = guard(|| {
             for seam in 0..2 {
-                for idx in 0..nm + 2 {
+                // every member, the two indices behind the last one, and indices so large that index x 4 does not fit
+                for idx in (0..nm + 2).chain([usize::MAX, 1usize << 62, (1usize << 62) + 1, 1usize << 63]) {
                     let exp = members.get(idx).map(|m| Expect { flavor: flavors[idx], tables: m.iter().map(|&i| pool[i].clone()).collect() });
                     if seam == 0 {
                         match ReadScope::new(&bytes).read::<OpenTypeFont<'_>>() {
